@@ -86,12 +86,12 @@ theorem pop_one (k : Kbd) (st : List Nat) (f : Nat) (h : k.stack = st ++ [f]) :
     k.pop 1 = { flags := f, stack := st } := by
   simp [Kbd.pop, Kbd.popN, h]
 
-/-- popping an empty stack resets the flags to 0 -/
-theorem pop_empty (k : Kbd) (n : Int) (h : k.stack = []) : (k.pop n).flags = 0 ∧ (k.pop n).stack = [] := by
+/-- popping (at least one entry of) an empty stack resets the flags to 0 -/
+theorem pop_empty (k : Kbd) (n : Int) (hn : 0 < n) (h : k.stack = []) :
+    (k.pop n).flags = 0 ∧ (k.pop n).stack = [] := by
   unfold Kbd.pop
-  generalize hm : (if n ≤ 0 then 1 else n.toNat) = m
-  have hm' : 0 < m := by
-    rw [← hm]; split <;> omega
+  generalize hm : n.toNat = m
+  have hm' : 0 < m := by omega
   cases m with
   | zero => omega
   | succ m => simp [Kbd.popN, h]
@@ -139,9 +139,11 @@ theorem popN_beyond (n : Nat) (k : Kbd) (h : k.stack.length < n) :
       have : 0 < k.stack.length := List.length_pos_iff.mpr hne
       omega
 
-/-- omitted / zero count pops one entry -/
-theorem pop_default (k : Kbd) (n : Int) (h : n ≤ 0) : k.pop n = k.pop 1 := by
-  simp [Kbd.pop, h]
+/-- "`CSI < n u` pops n entries": an explicit count of 0 pops nothing (an omitted count is 1:
+    `pop_dispatch` with an empty parameter list) -/
+theorem pop_default (k : Kbd) (n : Int) (h : n ≤ 0) : k.pop n = k := by
+  have : n.toNat = 0 := by omega
+  simp [Kbd.pop, Kbd.popN, this]
 
 /-! ### every reachable state respects the limit -/
 
